@@ -81,6 +81,9 @@ func genC18(r *Rng, tier string) []Case {
 		if i%2 == 0 {
 			addVariantSet(r, b, 0)
 		}
+		for _, e := range b.Exchanges { // multi-valued fields: a serializer that "remembers" the joined value writes to a shared map
+			e.Response.Header["X-Multi"] = []string{"a", "b"}
+		}
 		bx := bundleInSx(b)
 		for p := 0; p < 2; p++ {
 			xs := []Sx{}
